@@ -17,6 +17,10 @@ TECH = ("who-may-read audit of the recording options over the whole library, wri
         "inherits the label/content typestate of C05")
 
 RECORDING = {"save_every", "output_file", "progress_interval", "monitor", "monitor_update_interval", "pause_on_interrupt"}
+RUN_CONTROL = {"solve_time", "skip_time"}
+RUN_CONTROL_READERS = {
+    "tdgl.solver.solver:validate_terminal_currents": "samples the times at which a time-dependent current function is checked: decides accept / reject only",
+}
 ALLOWED_READERS = {
     "tdgl.solver.runner:Runner.__init__": "sizes the record buffer (save_every)",
     "tdgl.solver.runner:Runner._run_stage": "decides when to save / report progress / pause",
@@ -53,6 +57,7 @@ def check(ctx):
     ctx.rule("R11.11", "the counter that gates the adaptive rule is the solve-step counter handed in by the runner, nothing the recording resets (shared with C12 R12.1)", 1)
     ctx.rule("R11.1", "recording options (save_every, output_file, progress_interval, monitor, ...) are read only by the runner, the "
                       "data handler, their construction site and post-processing - never by the numerics", 6)
+    ctx.rule("R11.12", "the requested length of the run (solve_time, skip_time) is read by the runner's stage control and by validation only, never by the update", 2)
     ctx.rule("R11.2", "observers are pure: the save path and the probe readout write only to HDF5 objects, their own counters and the record buffer", 5)
     ctx.rule("R11.3", "probe indices are only used to index in load context", 1)
     ctx.rule("R11.4", "resume: fresh and seed initial-state tables have the same keys, seed values are the same-named fields, and "
@@ -93,6 +98,27 @@ def check(ctx):
         ctx.ob("R11.1", f"{fq} reads {sorted(fl)}", ok, detail=ALLOWED_READERS.get(fq), where=fq, construct=f"reads options.{sorted(fl)}",
                loc=loc(f, f.node), message=f"{fq} reads the recording option(s) {sorted(fl)}",
                consequence="the trajectory depends on how often it is recorded / where it is written")
+    # R11.12: how long the run is must not enter the step map (a run of length T1 continued for T2 has to pass through the same states
+    # as one run of length T1 + T2)
+    rc_readers: Dict[str, Set[str]] = {}
+    for f in repo.all_functions():
+        if f.module.name.startswith(("tdgl.visualization", "tdgl.test")) or f.module.name in ("tdgl.visualize",):
+            continue
+        for n in own_nodes(f.node):
+            if isinstance(n, ast.Attribute) and isinstance(n.ctx, ast.Load) and n.attr in RUN_CONTROL:
+                last = expanded_text(f.node, n.value).split(".")[-1]
+                if "option" in last.lower() or "option" in norm(n.value).split(".")[-1].lower():
+                    if not _only_rejects(f, n):
+                        rc_readers.setdefault(f.fq, set()).add(n.attr)
+    if not any(fq.startswith("tdgl.solver.runner:Runner.") for fq in rc_readers):
+        raise AnalysisError("no reader of solve_time / skip_time found in Runner (the stage control reads them today)")
+    for fq, fl in sorted(rc_readers.items()):
+        ok = fq.startswith("tdgl.solver.runner:Runner.") or fq in RUN_CONTROL_READERS or any(fq.startswith(a_ + ".") for a_ in RUN_CONTROL_READERS)
+        f = repo.by_fq(fq)
+        ctx.ob("R11.12", f"{fq} reads {sorted(fl)}", ok, detail=RUN_CONTROL_READERS.get(fq), where=fq, construct=f"reads options.{sorted(fl)}", loc=loc(f, f.node),
+               message=f"{fq} reads the run-length option(s) {sorted(fl)}",
+               consequence="the states a run passes through depend on how long the run was asked to be: a run of length T1 continued from its final state "
+                           "does not reproduce the frames of one uninterrupted run of length T1 + T2")
     # in solve(): recording options flow only into DataHandler(...) / Runner(...) arguments
     fs = repo.func(SOLVER, "TDGLSolver.solve")
     pm = parent_map(fs.node)
